@@ -141,6 +141,11 @@ func (c *c02Ctl) Fail(label string) error {
 	if c.sticky[label] {
 		return &os.PathError{Op: c02InjectMsg, Path: label, Err: syscall.EIO}
 	}
+	if c.failArmed && vkKind(label) == "lock" {
+		// the Serialize mutex is not a filesystem step
+		c.failArmed = false
+		return nil
+	}
 	if c.failArmed {
 		c.failArmed = false
 		c.failLabel = label
@@ -226,12 +231,12 @@ func c02Sibling(hash string, seed int64) []byte {
 
 func c02Gen(t *rapid.T, thorough bool) *c02Case {
 	cs := &c02Case{}
-	cs.Chunk = rapid.SampledFrom([]int{4, 64, 1000}).Draw(t, "chunk")
+	cs.Chunk = []int{4, 64, 1000}[vkPick(t, "chunk", 3)]
 	classes := []string{"0", "1", "chunk-1", "chunk", "chunk+1", "chunks"}
 	if thorough {
 		classes = append(classes, "multiwrite")
 	}
-	cs.SizeClass = rapid.SampledFrom(classes).Draw(t, "sizeclass")
+	cs.SizeClass = vkPickStr(t, "sizeclass", classes)
 	switch cs.SizeClass {
 	case "0":
 		cs.Size = 0
@@ -244,7 +249,7 @@ func c02Gen(t *rapid.T, thorough bool) *c02Case {
 	case "chunk+1":
 		cs.Size = cs.Chunk + 1
 	case "chunks":
-		cs.Size = cs.Chunk*rapid.IntRange(2, 4).Draw(t, "nchunks") + rapid.IntRange(0, cs.Chunk-1).Draw(t, "rest")
+		cs.Size = cs.Chunk*(2+vkPick(t, "nchunks", 3)) + rapid.IntRange(0, cs.Chunk-1).Draw(t, "rest")
 	case "multiwrite":
 		// io.Copy moves 32 KiB at a time: several Write calls
 		cs.Chunk = 30000
@@ -252,13 +257,13 @@ func c02Gen(t *rapid.T, thorough bool) *c02Case {
 	}
 	cs.Data = c02Bytes(rapid.Int64().Draw(t, "dataseed"), cs.Size)
 	cs.Hash = vkMD5(cs.Data)
-	cs.Serialize = rapid.Bool().Draw(t, "serialize")
-	nvol := rapid.IntRange(1, 2).Draw(t, "nvol")
+	cs.Serialize = vkPick(t, "serialize", 2) == 0
+	nvol := 1 + vkPick(t, "nvol", 2)
 	pres := []string{preAbsent, preAbsent, preEmptyDir, preIntact, preIntact, preTruncated, preFlipped, preExtended, preOtherBlock, preStaleTmp, preIntactTmp}
 	anyBy := false
 	for i := 0; i < nvol; i++ {
 		v := c02Vol{UUID: fmt.Sprintf("zzzzz-nyw5e-%015d", i)}
-		v.Pre = rapid.SampledFrom(pres).Draw(t, fmt.Sprintf("pre%d", i))
+		v.Pre = vkPickStr(t, fmt.Sprintf("pre%d", i), pres)
 		if cs.Size == 0 && (v.Pre == preTruncated || v.Pre == preFlipped) {
 			v.Pre = preExtended
 		}
@@ -281,20 +286,20 @@ func c02Gen(t *rapid.T, thorough bool) *c02Case {
 		if v.Pre == preStaleTmp || v.Pre == preIntactTmp {
 			v.TmpBytes = append([]byte{}, cs.Data[:rapid.IntRange(0, cs.Size).Draw(t, "tmplen")]...)
 		}
-		v.Bystander = rapid.IntRange(0, 2).Draw(t, "bystander") == 0
+		v.Bystander = vkPick(t, "bystander", 3) == 0
 		anyBy = anyBy || v.Bystander
 		cs.Vols = append(cs.Vols, v)
 	}
-	if nvol == 2 && rapid.IntRange(0, 5).Draw(t, "ro") == 0 {
-		cs.Vols[rapid.IntRange(0, 1).Draw(t, "rovol")].ReadOnly = true
+	if nvol == 2 && vkPick(t, "ro", 5) == 0 {
+		cs.Vols[vkPick(t, "rovol", 2)].ReadOnly = true
 	}
 	for _, v := range cs.Vols {
 		cs.Order = append(cs.Order, v.UUID)
 	}
-	if nvol == 2 && rapid.Bool().Draw(t, "swap") {
+	if nvol == 2 && vkPick(t, "swap", 2) == 0 {
 		cs.Order[0], cs.Order[1] = cs.Order[1], cs.Order[0]
 	}
-	cs.Counter = uint32(rapid.IntRange(0, 1).Draw(t, "counter"))
+	cs.Counter = uint32(vkPick(t, "counter", 2))
 	if anyBy {
 		cs.ByData = c02Sibling(cs.Hash, int64(cs.Size))
 		cs.ByHash = vkMD5(cs.ByData)
@@ -358,12 +363,6 @@ type c02Result struct {
 // run performs the PUT with the given plan and leaves the directories in the
 // state a freshly started process would find.
 func (cs *c02Case) run(t vkT, env *c02Env, target int, action string) *c02Result {
-	wd := time.AfterFunc(time.Second, func() {
-		buf := make([]byte, 1<<20)
-		n := runtime.Stack(buf, true)
-		fmt.Fprintf(os.Stderr, "WATCHDOG\n%s\nENDWATCHDOG\n", buf[:n])
-	})
-	defer wd.Stop()
 	cs.prepare(t, env)
 	cl := vkCluster(t, cs.conf(env))
 	h := vkNewHandler(t, cl, env.log, cs.Order, cs.Counter)
@@ -470,7 +469,13 @@ func (cs *c02Case) oracle(t vkT, env *c02Env, res *c02Result, action string) str
 			if v.Bystander {
 				want[filepath.Join(cs.ByHash[:3], cs.ByHash)] = cs.ByData
 			}
-			if fmt.Sprint(vkSortedKeys(want)) != fmt.Sprint(vkSortedKeys(snap)) {
+			same := len(want) == len(snap)
+			for k, b := range want {
+				if g, ok := snap[k]; !ok || !bytes.Equal(g, b) {
+					same = false
+				}
+			}
+			if !same {
 				return fmt.Sprintf("read-only volume %d: files changed: have %v want %v", i, vkSortedKeys(snap), vkSortedKeys(want))
 			}
 		}
@@ -626,11 +631,7 @@ func TestVerifC02Crash(t *testing.T) {
 		for k := 0; k < n; k++ {
 			for _, action := range c02Actions(thorough) {
 				env.log.Reset()
-				t0 := time.Now()
 				res := cs.run(t, env, k, action)
-				if d := time.Since(t0); d > 300*time.Millisecond {
-					t.Logf("SLOW run %v: action %s point %d %s trace %v", d, action, k, dry.Trace[k], res.Trace)
-				}
 				executions++
 				if !res.Acted {
 					// the run took a different path than the dry run
